@@ -143,6 +143,15 @@ def int_binop(it, op, a, b, node):
                 it.raise_(ZeroDivisionError, node)
             if not it.ctx.valid(zb_ > 0):
                 raise Unsupported("division by possibly negative value")
+        if isinstance(b, int) and t is ast.Mod:
+            sz = z3.simplify(strip_mod(za, b))
+            if not z3.is_int_value(sz) and b > 2 ** 64:
+                # field-sized modulus: drop the reduction when the path condition bounds the operand (canonical form)
+                if it.ctx.valid(z3.And(za >= 0, za < b)):
+                    return mk_int(za)
+                if it.ctx.valid(z3.And(za >= -b, za < 0)):
+                    return mk_int(za + b)
+            return mk_int(sz % zb_)
         if not isinstance(b, int):
             # non-constant divisor: uninterpreted quotient/remainder tied together by the division identity
             return mk_int(sym.F_idiv(za, zb_)) if t is ast.FloorDiv else mk_int(sym.F_imod(za, zb_))
@@ -178,6 +187,28 @@ def int_binop(it, op, a, b, node):
     if t is ast.Div:
         raise Unsupported("true division on symbolic ints")
     raise Unsupported(f"int op {t.__name__}")
+
+
+def strip_mod(z, m):
+    """(.. (t % m) ..) % m == (.. t ..) % m for sums, differences and products: canonical form of modular expressions."""
+    z = z3.simplify(z)
+    if z3.is_int_value(z):
+        return z3.IntVal(z.as_long() % m)       # constants are reduced (p - y and -y get the same form)
+    if z3.is_app_of(z, z3.Z3_OP_MOD) and z3.is_int_value(z.arg(1)) and z.arg(1).as_long() == m:
+        return strip_mod(z.arg(0), m)
+    if z3.is_app_of(z, z3.Z3_OP_ADD):
+        return z3.Sum([strip_mod(c, m) for c in z.children()])
+    if z3.is_app_of(z, z3.Z3_OP_SUB):
+        ch = [strip_mod(c, m) for c in z.children()]
+        r = ch[0]
+        for c in ch[1:]:
+            r = r - c
+        return r
+    if z3.is_app_of(z, z3.Z3_OP_MUL):
+        return z3.Product([strip_mod(c, m) for c in z.children()])
+    if z3.is_app_of(z, z3.Z3_OP_UMINUS):
+        return -strip_mod(z.arg(0), m)
+    return z
 
 
 def _need_nonneg(it, b, zb_, node):
@@ -813,6 +844,8 @@ def call_method(it, recv, name, args, kwargs, node):
             if isinstance(recv, int):
                 return recv.bit_length()
             z = zi(recv)
+            if it.ctx.valid(z >= 0):
+                return mk_int(sym.F_bitlen(z))
             az = z3.If(z >= 0, z, -z)
             return mk_int(sym.F_bitlen(az))
     if is_bytes(recv):
